@@ -485,4 +485,50 @@ def Sym.evalList (I : Interp α) : List Sym → List α
   | a :: as => Sym.eval I a :: Sym.evalList I as
 end
 
+/-! ### the rendered package: which file sees which include
+
+`executor.write_cpp_files` hands the templates `body_include_files` = the include files the
+translation added (`qv.include_files()`) followed by the `body_includes` of every `inject_code`
+block, and `header_include_files` = their `header_includes`.  The ATLAS templates render `query.cxx`
+(which includes the rendered `query.h`, then the body includes) and `query.h` (the header includes);
+the CMS AOD and miniAOD templates render one C++ file, `Analyzer.cc`, with the body includes only —
+`header_include_files` is not used there. -/
+
+inductive Backend where
+  | atlas | cmsAod | cmsMiniaod
+deriving Repr, DecidableEq
+
+/-- the include lists of one `inject_code` metadata block -/
+structure Inject where
+  headerIncs : List String
+  bodyIncs : List String
+deriving Repr
+
+/-- one rendered C++ file: its name, the files it includes (a rendered file is named by its base
+name), whether it calls a `std::` math function -/
+structure FileObs where
+  name : String
+  incs : List String
+  callsMath : Bool
+deriving Repr
+
+def headerIncsOf (mds : List Inject) : List String := mds.flatMap (·.headerIncs)
+def bodyIncsOf (mds : List Inject) : List String := mds.flatMap (·.bodyIncs)
+
+/-- the C++ files of the package as far as includes go; `qv` are the include files the translation
+of the query added, `hdrCalls` says whether injected declarations (`private_members`, rendered into
+the class declaration: `query.h` on ATLAS) call a math function themselves -/
+def packageFiles (b : Backend) (qv : List String) (mds : List Inject) (hdrCalls : Bool) : List FileObs :=
+  match b with
+  | .atlas => [⟨"query.cxx", ["query.h"] ++ qv ++ bodyIncsOf mds, true⟩, ⟨"query.h", headerIncsOf mds, hdrCalls⟩]
+  | _ => [⟨"Analyzer.cc", qv ++ bodyIncsOf mds, true⟩]
+
+/-- `name` includes `h`, directly or through rendered files it includes -/
+def sees (files : List FileObs) : Nat → String → String → Bool
+  | 0, _, _ => false
+  | fuel + 1, name, h =>
+    match files.find? (·.name == name) with
+    | none => false
+    | some f => f.incs.contains h || f.incs.any fun i => files.any (·.name == i) && sees files fuel i h
+
 end FaxVerif.C12
